@@ -107,9 +107,9 @@ def run(report, tier, seed):
     nb = 10 if tier == "quick" else 120
     width = 60
     for k in range(nb):
-        kind = rng.choice(["uni2", "uni2", "uni3", "mixed", "big", "huge", "u64"])
-        if k < 4:            # every run has at least one batch of each of the special kinds
-            kind = ["u64", "huge", "mixed", "big"][k]
+        kind = rng.choice(["uni2", "uni2", "uni3", "mixed", "big", "huge", "u64", "dense"])
+        if k < 5:            # every run has at least one batch of each of the special kinds
+            kind = ["u64", "huge", "mixed", "big", "dense"][k]
         dts = (numpy.int64, numpy.int64, numpy.int64)
         if kind == "uni2":
             na = nb_ = nc = (0, 1)
@@ -153,6 +153,30 @@ def run(report, tier, seed):
                         mo = rng.choice(list(base))
                         if mo != mbig:
                             A[j][mo] = base[mo] + rng.choice([1, 2])
+        elif kind == "dense":
+            # every monomial up to a total degree (10-35 aligned terms of SEVERAL degrees): operands that agree except at
+            # two monomials of one total degree, in opposite directions - the verdict is decided by the order WITHIN a
+            # degree, which only a stable graded stage keeps (a sort of all-equal keys tends to leave them alone, so
+            # the one-degree batches below do not show an unstable sort on every machine)
+            nv = rng.choice([2, 3])
+            na = nb_ = nc = tuple(range(nv))
+            deg = rng.choice([3, 4]) if nv == 2 else rng.choice([2, 3, 4])
+            monos = [m for m in itertools.product(range(deg + 1), repeat=nv) if sum(m) <= deg]
+
+            def twist(e):
+                f = dict(e)
+                d = rng.randint(1, deg)
+                same = [m for m in monos if sum(m) == d]
+                m1, m2 = rng.sample(same, 2)
+                f[m1] += 1
+                f[m2] -= 1
+                if rng.random() < 0.3:
+                    m3 = rng.choice([m for m in monos if sum(m) < d])
+                    f[m3] += rng.choice([-1, 1])
+                return f
+            A = [{m: rng.choice([-3, -2, 2, 3, 4]) for m in monos} for _ in range(12)]
+            B = [twist(a) for a in A]
+            C = [twist(b) for b in B]
         else:
             na = nb_ = nc = (0, 1, 2)
             deg = rng.randint(5, 9)
